@@ -511,7 +511,11 @@ func BatchMain(self, verifDir string, p *Prop, tier string) int {
 			byIdx[r.Idx] = r
 		}
 		for _, r := range again {
-			if o := byIdx[r.Idx]; o == nil || o.Hash != r.Hash {
+			o := byIdx[r.Idx]
+			if o == nil {
+				continue // that run killed its worker in the first pass
+			}
+			if o.Hash != r.Hash {
 				fmt.Fprintf(os.Stderr, "HARNESS-TROUBLE property=%s nondeterminism: run %d hashed %s then %s\n", p.ID, r.Idx, o.Hash, r.Hash)
 				return 2
 			}
